@@ -122,7 +122,11 @@ def analyse(W, name, f, ctx, desc, path):
     from ..traceutil import Statement as _St
     sent = [c for x in deliveries for c in (_St(x[1].data["args"][0], x[1]).codes() or ["?"])]
     net = sorted(f"{a}.{b}" for a, b in changed)
-    key = f"{name}:{eff_fn}/{tag}:then:{path.raise_site[0]}:{cls}:sent={','.join(sent) or '-'}:net={','.join(net) or '-'}"
+    # identity of a finding: the command, what the first lasting effect touches (a delivery, or a state slot), the
+    # exception class and what is left behind -- no function names, so that extracting or renaming a helper on
+    # either side does not turn a known finding into a new one
+    first = "delivery" if kind == "delivery" else f"{W.labels.get(ev.data.get('obj'), '?')}.{tag}"
+    key = f"{name}:{first}:{cls}:sent={','.join(sent) or '-'}:net={','.join(net) or '-'}"
     later = [w for k, e, w in effects if e is not ev][:3]
     return [("viol", key,
              f"{entry} is rejected with {cls} (raised in {path.raise_site[0]}) after a lasting effect: {what} in {eff_fn}"
